@@ -22,15 +22,22 @@ WALL = {"quick": 280, "thorough": 3500}
 RULE = ("one run = document + scheduled delivery + mutation history; components and counters compared "
         "with the model at every settled step; distinct = distinct (partition, counters) digests")
 PROBES = ["multi_component", "cycle", "self_link", "containment_only_relation", "internal_only_relation",
-          "after_mutation", "remove_small_components", "isolated_segment", "component_ge3"]
+          "after_mutation", "remove_small_components", "isolated_segment", "component_ge3", "split_components",
+          "long_chain"]
 
 
 def gen(streams, tier, i):
     cfg = streams.get("config2")
+    if cfg.random() < 0.004:
+        # one long chain: the traversal must not depend on the recursion limit
+        n = cfg.choice([1100, 1500])
+        v = cfg.choice(["gfa1", "gfa2"])
+        return {"cfg": {"version": v, "vlevel": cfg.choice([0, 1]), "long_chain": n}, "ops": []}
     scn = c11.gen(streams, tier, i + 7919, over={"max_seg": cfg.choice([3, 5, 8]), "min_seg": 2,
                                                   "max_link": cfg.choice([3, 6, 10]), "max_edge": cfg.choice([3, 6, 10]),
                                                   "etypes": ["dovetail", "dovetail", "cont", "internal", "any"]})
     scn["cfg"].pop("cell", None)
+    scn["ops"] = [o for o in scn["ops"] if o["op"] != "flip_ref"]      # (C11's business)
     r = streams.get("history")
     if r.random() < 0.4:
         scn["ops"].append({"op": "remove_small", "minlen": r.choice([1, 5, 10, 20, 40, 1000])})
@@ -66,6 +73,80 @@ def model_topology(m):
                 ni += 1
     dead = sum(1 for s in segs for e in "LR" if (s, e) not in ends)
     return uf.classes(), {"n_dovetails": nd, "n_containments": nc, "n_internals": ni, "n_dead_ends": dead}
+
+
+def model_dovetails(m):
+    """[(record, seg1, seg2)] for every dovetail record of the document"""
+    out = []
+    for r in m.recs:
+        if m.version == "gfa1":
+            if r.rt == "L":
+                out.append((r, r.pos[0], r.pos[2]))
+        elif r.rt == "E":
+            s1, o1, s2, o2 = r.pos[1][:-1], r.pos[1][-1], r.pos[2][:-1], r.pos[2][-1]
+            if classify_edge(o1, r.pos[3], r.pos[4], o2, r.pos[5], r.pos[6])[0] == "dovetail":
+                out.append((r, s1, s2))
+    return out
+
+
+def cut_queries(w, m, st, n, op, classes):
+    """is_cut_segment / is_cut_link: does the removal split a class of the dovetail relation?"""
+    g = w.gfa
+    dov = model_dovetails(m)
+    segs = sorted(r.pos[0] for r in m.recs if r.rt == "S")
+    for s in segs[(n % 3)::3][:4]:
+        cls = [c for c in classes if s in c][0]
+        rest = [x for x in cls if x != s]
+        uf = UnionFind(rest)
+        for _r, a, b in dov:
+            if a != s and b != s and a in cls and b in cls:
+                uf.union(a, b)
+        want = len(uf.classes()) > 1
+        o = core.call(g.is_cut_segment, s)
+        st.count("oracle.cut_segment")
+        if not o.ok:
+            raise core.Violation("cut-query-raised", "is_cut_segment(%r) raised %s: %s" % (s, o.excname, str(o.exc)[:150]),
+                                 exc=o.excname, frame=o.frame, q="segment")
+        if bool(o.value) != want:
+            raise core.Violation("cut-segment-differs", "after step %d: is_cut_segment(%r)=%r, removing it %s its class %r" %
+                                 (n, s, o.value, "splits" if want else "does not split", sorted(cls)), q="segment")
+    for idx, (rec, a, b) in list(enumerate(dov))[(n % 2)::2][:4]:
+        if a == b:
+            continue
+        uf = UnionFind(segs)
+        for j, (_r, x, y) in enumerate(dov):
+            if j != idx:
+                uf.union(x, y)
+        want = not any(a in c and b in c for c in uf.classes())
+        name = m.name_of(rec)
+        l = g.line(name) if name else w._target({"text": rec.render()})
+        if l is None:
+            continue
+        o = core.call(g.is_cut_link, l)
+        st.count("oracle.cut_link")
+        if not o.ok:
+            raise core.Violation("cut-query-raised", "is_cut_link(%r) raised %s: %s" % (rec.render(), o.excname, str(o.exc)[:150]),
+                                 exc=o.excname, frame=o.frame, q="link")
+        if bool(o.value) != want:
+            raise core.Violation("cut-link-differs", "after step %d: is_cut_link(%r)=%r, removing it %s %s from %s" %
+                                 (n, rec.render(), o.value, "separates" if want else "does not separate", a, b), q="link")
+
+
+def split_query(w, m, st, classes):
+    g = w.gfa
+    pre = digest(ob.observe(g))
+    o = core.call(g.split_connected_components)
+    st.count("oracle.split_components")
+    st.count("probe.split_components")
+    if not o.ok:
+        raise core.Violation("split-raised", "split_connected_components() raised %s: %s" % (o.excname, str(o.exc)[:200]),
+                             exc=o.excname, frame=o.frame)
+    got = set(frozenset(x.segment_names) for x in o.value)
+    if got != classes or len(o.value) != len(classes):
+        raise core.Violation("split-differs", "split_connected_components() gives segment sets %r, the classes are %r" %
+                             (sorted(sorted(c) for c in got), sorted(sorted(c) for c in classes)))
+    if digest(ob.observe(g)) != pre:
+        raise core.Violation("split-modified-gfa", "split_connected_components() changed the Gfa it was called on")
 
 
 def check(w, m, st, n, op):
@@ -116,9 +197,42 @@ def check(w, m, st, n, op):
         if not oc.ok or oc.value != v:
             raise core.Violation("counter-differs", "after step %d %r: %s=%r, the document says %d" %
                                  (n, op.get("line", op), k, oc.value if oc.ok else oc.excname, v), counter=k, op=op["op"])
+    cut_queries(w, m, st, n, op, classes)
+    if n % 7 == 0 and len(g.segments) <= 8:
+        split_query(w, m, st, classes)
+
+
+def run_long_chain(scn, st):
+    n, v = scn["cfg"]["long_chain"], scn["cfg"]["version"]
+    st.count("probe.long_chain")
+    if v == "gfa1":
+        lines = ["S\ts%d\t*" % i for i in range(n)] + ["L\ts%d\t+\ts%d\t+\t*" % (i, i + 1) for i in range(n - 1)]
+    else:
+        lines = ["S\ts%d\t10\t*" % i for i in range(n)] + \
+                ["E\t*\ts%d+\ts%d+\t5\t10$\t0\t5\t*" % (i, i + 1) for i in range(n - 1)]
+    w = World(st)
+    o = w.construct("list", lines, vlevel=scn["cfg"]["vlevel"])
+    if not o.ok:
+        raise core.Violation("components-raised", "a chain of %d segments is rejected: %s" % (n, o.excname), exc=o.excname)
+    g = o.value
+    for what, fn, want in (("connected_components", lambda: [len(c) for c in g.connected_components()], [n]),
+                           ("segment_connected_component", lambda: len(g.segment_connected_component("s0")), n),
+                           ("n_dovetails", lambda: g.n_dovetails, n - 1),
+                           ("is_cut_segment(middle)", lambda: g.is_cut_segment("s%d" % (n // 2)), True),
+                           ("linear_paths", lambda: [len(p) for p in g.linear_paths()], [n])):
+        r = core.call(fn)
+        st.count("oracle.long_chain")
+        if not r.ok:
+            raise core.Violation("components-raised", "chain of %d segments: %s raised %s: %s" %
+                                 (n, what, r.excname, str(r.exc)[:150]), exc=r.excname, frame=r.frame)
+        if r.value != want:
+            raise core.Violation("components-differ", "chain of %d segments: %s = %r, expected %r" % (n, what, r.value, want),
+                                 op="long_chain")
 
 
 def run(scn, st):
+    if scn["cfg"].get("long_chain"):
+        return run_long_chain(scn, st)
     w = World(st)
     version = scn["cfg"]["version"]
     m = None
